@@ -117,6 +117,95 @@ def one(acc, framing, side, m, unit, tid, pid):
                           'receiver called as processIncomingPacket(packet, callback, %s) delivered %d messages' % (shape, len(got2)), cfg)
 
 
+HOOKED = ('unit_id', 'function_code', 'transaction_id', 'protocol_id')
+
+
+def _hooked(o, hook):
+    """the same message object, every read of its ids and every encode() call announced to `hook` first (the points
+    at which the thread building a packet from it can be pre-empted)"""
+    cls = type(o)
+    ns = {}
+    for name in HOOKED:
+        def get(self, _n=name):
+            hook()
+            return self.__dict__[_n] if _n in self.__dict__ else getattr(cls, _n)
+
+        def put(self, v, _n=name):
+            self.__dict__[_n] = v
+        ns[name] = property(get, put)
+
+    def encode(self):
+        hook()
+        return cls.encode(self)
+    ns['encode'] = encode
+    o.__class__ = type(cls.__name__, (cls,), ns)
+    return o
+
+
+def rebuild_cases(acc, framing, side, m, other):
+    cname = bind.cls_name(m)
+    cfg = '%s/%s/%s' % (framing, side, cname)
+    unit, tid = 0x11, 0x0102
+
+    def expect(o, u, t):
+        raw = bind.pdu_bytes(o)
+        exp = [adu.build(framing, u, raw, tid=t, pid=0)]
+        if framing == 'binary':
+            exp.append(adu.build(framing, u, raw, binary_crc='raw'))
+        return exp
+    # (a) the application edits a message it has sent and sends it again (other unit, next transaction, next address):
+    # the second packet is the ADU of the message as it stands then
+    acc.inc('evaluations')
+    wit = dict(framing=framing, side=side, pdu=pdu.encode(m).hex(), rebuilt=True)
+    try:
+        fr = framers.make(framing, side)
+        o = bind.to_obj(dict(m, unit=unit, tid=tid, pid=0))
+        fr.buildPacket(o)
+        o.unit_id, o.transaction_id = unit + 1, tid + 1
+        for attr in ('address', 'value', 'read_address'):
+            if isinstance(getattr(o, attr, None), int) and not isinstance(getattr(o, attr), bool) and getattr(o, attr) < 0xFF00:
+                setattr(o, attr, getattr(o, attr) + 1)
+        exp = expect(o, unit + 1, tid + 1)
+        pkt = fr.buildPacket(o)
+        if pkt not in exp:
+            acc.violation('C03/%s/%s/%s/build/after-edit' % (framing, side, cname), wit,
+                          'second build of the edited message %s expected %s' % (pkt.hex()[:80], exp[0].hex()[:80]), cfg)
+    except Exception as e:   # noqa
+        acc.violation('C03/%s/%s/%s/build/after-edit-raise:%s' % (framing, side, cname, type(e).__name__), wit, repr(e)[:100], cfg)
+    # (b) two framers (two connections) build packets at the same time: the builder of one is pre-empted at its k-th
+    # access to the message, for every k, while the other builds a whole packet
+    count = [0]
+    o = _hooked(bind.to_obj(dict(m, unit=unit, tid=tid, pid=0)), lambda: count.__setitem__(0, count[0] + 1))
+    try:
+        framers.make(framing, side).buildPacket(o)
+    except Exception:   # noqa
+        return
+    total = count[0]
+    for k in range(1, total + 1):
+        acc.inc('evaluations')
+        wit = dict(framing=framing, side=side, pdu=pdu.encode(m).hex(), preempted_at=k, other=pdu.encode(other).hex())
+        fr_a, fr_b = framers.make(framing, side), framers.make(framing, side)
+        ob = bind.to_obj(dict(other, unit=0x22, tid=0x0304, pid=0))
+        seen = [0]
+        res = {}
+
+        def hook():
+            seen[0] += 1
+            if seen[0] == k:
+                res['b'] = fr_b.buildPacket(ob)
+        oa = _hooked(bind.to_obj(dict(m, unit=unit, tid=tid, pid=0)), hook)
+        try:
+            pa = fr_a.buildPacket(oa)
+        except Exception as e:   # noqa
+            acc.violation('C03/%s/%s/%s/build/concurrent-raise:%s' % (framing, side, cname, type(e).__name__), wit, repr(e)[:100], cfg)
+            continue
+        hook = None
+        oa.__class__ = type(oa).__mro__[1]
+        if pa not in expect(oa, unit, tid) or res.get('b') not in expect(ob, 0x22, 0x0304):
+            acc.violation('C03/%s/%s/%s/build/concurrent' % (framing, side, cname), wit,
+                          'pre-empted builder produced %s, the other %s' % (pa.hex()[:80], (res.get('b') or b'').hex()[:80]), cfg)
+
+
 def shard_sweep(args):
     """every enumerated message of every class (all list lengths: exercises every RTU size rule) through each framing"""
     _, kind, fc, tier = args
@@ -149,6 +238,8 @@ def shard(args):
             for unit, tid, pid in id_space(framing, tier, heavy=(i % 5 == 0)):
                 one(acc, framing, side, m, unit, tid, pid)
             acc.add('nontrivial', (framing, side, pdu.encode(m)))
+        for i, m in enumerate(ms):
+            rebuild_cases(acc, framing, side, m, ms[(i + 3) % len(ms)])
         for m in (catalog.LARGE_REQUESTS if side == 'req' else catalog.LARGE_RESPONSES):
             for unit in (0, 1, 17, 0xFF):
                 one(acc, framing, side, m, unit, 0xFFFF, 0)
@@ -191,7 +282,7 @@ def run(tier, seed):
     return dict(acc=acc, level=LEVEL,
                 coverage=dict(
                     rule='one case = one (framing, direction, message, unit, tid, pid) build + whole-packet delivery to a fresh '
-                         'receiver, or one checksum comparison; non-trivial = distinct (framing, direction, PDU) and checksum shards',
+                         'receiver, one rebuild of an edited message, one build pre-empted at one access to the message while another framer builds, or one checksum comparison; non-trivial = distinct (framing, direction, PDU) and checksum shards',
                     bounds='all unit ids 0..255; tcp: 26 boundary transaction ids x {0,1,255} units x protocol ids {0,1,0xFFFF}'
                            + ('; all 65536 transaction ids for every 5th message' if tier == 'thorough' else '')
                            + '; every message of the C01 enumeration (all list lengths) through RTU (and every 7th, thorough: every, through the other framings), unit 0x11; checksums: every byte string of length <= 2 (65793) and 6 single-byte variations per position of 24 structured strings'),
@@ -208,5 +299,10 @@ def replay(w):
         bad = computeCRC(s) != (((c & 0xFF) << 8) | (c >> 8)) or computeLRC(s) != crc.lrc(s)
         return bad, 'computeCRC=%04x computeLRC=%02x reference crc=%04x lrc=%02x' % (computeCRC(s), computeLRC(s), c, crc.lrc(s))
     m = pdu.decode(w['side'], bytes.fromhex(w['pdu']))
+    if 'rebuilt' in w or 'preempted_at' in w:
+        other = pdu.decode(w['side'], bytes.fromhex(w['other'])) if 'other' in w else m
+        rebuild_cases(acc, w['framing'], w['side'], m, other)
+        vs = [v for v in acc.violations if v['witness'] == w]
+        return bool(vs), '\n'.join('%s: %s' % (v['sig'], v['msg']) for v in vs) or 'no violation'
     one(acc, w['framing'], w['side'], m, w['unit'], w['tid'], w['pid'])
     return bool(acc.violations), '\n'.join('%s: %s' % (v['sig'], v['msg']) for v in acc.violations) or 'no violation'
